@@ -192,6 +192,10 @@ func (b *Builder) addLengthPrefixed(lenLen int, isASN1 bool, f BuilderContinuati
 
 	offset := len(b.result)
 	b.add(make([]byte, lenLen)...)
+	if b.err != nil {
+		// The length placeholder did not fit in a fixed-size buffer.
+		return
+	}
 
 	if b.inContinuation == nil {
 		b.inContinuation = new(bool)
@@ -267,6 +271,10 @@ func (b *Builder) flushChild() {
 		extraBytes := int(lenLen - 1)
 		if extraBytes != 0 {
 			child.add(make([]byte, extraBytes)...)
+			if child.err != nil {
+				b.err = child.err
+				return
+			}
 			childStart := child.offset + child.pendingLenLen
 			copy(child.result[childStart+extraBytes:], child.result[childStart:])
 		}
